@@ -1135,6 +1135,18 @@ pub fn gen_meanvar(rng: &mut Rng, tier: &Tier) -> Vec<Case> {
         }
     }
     cases.extend(long_cases(rng, &["meanvar N=3".to_string()]));
+    {
+        // … and one long run next to the real mean filter of the same width, compared sample by sample
+        let n = *rng.pick(&[3usize, 5, 6]);
+        let mut c = vec![format!("new 1 meanvar N={}", n), format!("new 3 mean N={}", n), "long 1 1024".to_string(), "long 3 1024".to_string()];
+        for _ in 0..LONG_RUN {
+            let x = rng.range(-9, 9);
+            c.push(format!("f 1 {}", x));
+            c.push(format!("f 3 {}", x));
+            c.push("same 1 3 C16.mean-eq-mean-filter 0".into());
+        }
+        cases.push(c);
+    }
     // the exponential mean-variance filter holds two exponential means of its own; hand-built (the state is public),
     // they may carry a width that differs from the filter's configuration. Its mean output is then what THAT inner mean
     // filter emits — compared with a real exponential mean of the same width and state fed the same samples
@@ -1595,7 +1607,7 @@ fn with_lifecycle(cases: Vec<Case>, rng: &mut Rng) -> Vec<Case> {
         let in_step: Vec<usize> = (1..body.len())
             .filter(|&i| body[i].starts_with("f ") && (news.len() == 1 || !body[i - 1].starts_with("f ")))
             .collect();
-        let pick = match rng.below(6) {
+        let pick = match rng.below(7) {
             // (no rewinding where an instance's inputs encode the history of the whole signal: `compose` lines, the
             // slope-driven peak detector fed by an external slope filter)
             5 if in_step.is_empty() || c.iter().any(|l| l.starts_with("compose") || l.contains("peaks_slopes")) => 0,
@@ -1607,6 +1619,19 @@ fn with_lifecycle(cases: Vec<Case>, rng: &mut Rng) -> Vec<Case> {
                     v.push(format!("reset {}", id));
                 }
                 v.extend(body.iter().cloned());
+            }
+            6 => {
+                // the state looked at through `StateMut::state_mut` (the only way to inspect a live filter) after some of
+                // the samples — before whatever the case observes next: looking changes nothing
+                let tail: Vec<String> = v.split_off(news.len());
+                for l in tail {
+                    let is_f = l.starts_with("f ");
+                    let id = l.split(' ').nth(1).unwrap_or("").to_string();
+                    v.push(l);
+                    if is_f && news.contains(&id) && rng.chance(1, 2) {
+                        v.push(format!("sm {}", id));
+                    }
+                }
             }
             5 => {
                 // rewind to a snapshot: `filter.clone_from(&snapshot)` where the snapshot is a pristine instance and the
